@@ -941,13 +941,13 @@ theorem every_iff (f : List Obj → Obj) (seqs : List (List Obj)) :
 theorem some_iff (f : List Obj → Obj) (seqs : List (List Obj)) :
     truthy (some' f seqs) = true ↔ ∃ tup ∈ tuples seqs, truthy (f tup) = true := by
   unfold some'
-  rw [truthy_ofBool, List.any_eq_true]
+  rw [truthy_firstTruthy, List.any_eq_true]
 
 /-- `notany` is the complement of `some`, `notevery` the complement of `every` -/
 theorem quantifier_duality (f : List Obj → Obj) (seqs : List (List Obj)) :
     notany f seqs = ofBool (!truthy (some' f seqs)) ∧ notevery f seqs = ofBool (!truthy (every f seqs)) := by
   unfold notany notevery some' every
-  rw [truthy_ofBool, truthy_ofBool, List.not_any_eq_all_not, List.not_all_eq_any_not]
+  rw [truthy_firstTruthy, truthy_ofBool, List.not_any_eq_all_not, List.not_all_eq_any_not]
   exact ⟨rfl, rfl⟩
 
 /-- `mapcar` applies the function to each argument tuple, in order -/
